@@ -266,6 +266,14 @@ theorem WF_fitImage (o : Ops α) (c : Ctx α) (i : ImgRef α) (r : Rct α) (fit 
   · exact h
   · exact WF_emit _ _ h
 
+theorem WF_foldl_render (calls : List (Call α)) (cv : Canvas α) : WF cv → WF (calls.foldl Canvas.render cv) := by
+  induction calls generalizing cv with
+  | nil => exact id
+  | cons k ks ih => intro h; exact ih _ (WF_render cv k h)
+
+theorem WF_renderInto (o : Ops α) (src : Canvas α) (view : Mat α) (dst : Canvas α) :
+    WF dst → WF (src.renderInto o view dst) := WF_foldl_render _ dst
+
 theorem WF_step (o : Ops α) (op : Op α) (c : Ctx α) : WF c.cv → WF (step o op c).cv := by
   intro h
   cases op with
@@ -277,10 +285,14 @@ theorem WF_step (o : Ops α) (op : Op α) (c : Ctx α) : WF c.cv → WF (step o 
   | drawText x y t => exact WF_drawText o c x y t h
   | drawImage x y i res => exact WF_drawImage o c x y i res h
   | fitImage i r fit => exact WF_fitImage o c i r fit h
+  | fill p => exact WF_drawPath o (c.withStyle _) o.zero o.zero [p] h
+  | stroke p => exact WF_drawPath o (c.withStyle _) o.zero o.zero [p] h
+  | fillStroke p => exact WF_drawPath o c o.zero o.zero [p] h
   | cvTransform m => exact WF_transform o m c.cv h
   | cvClip r => exact WF_clip o r c.cv h
   | cvFit margin => exact WF_fit o margin c.cv h
   | cvReset => exact WF_reset c.cv h
+  | cvNest view => exact WF_renderInto o c.cv view _ (WF_new _ _)
   | _ => exact h
 
 theorem WF_run (o : Ops α) (h : List (Op α)) (c : Ctx α) : WF c.cv → WF (run o h c).cv := by
